@@ -247,8 +247,10 @@ class Parser:
             try:
                 next_expr = self.parse_expression(expr_pstate, _PREC_SLICE)
             except ParseError:
-                # no expression follows, too bad.
-                left_exp = primitives.Slice((None,))
+                # no expression follows: a lone colon separates two omitted
+                # parts (':' is Slice((None, None)), like 'x:' is
+                # Slice((x, None))).
+                left_exp = primitives.Slice((None, None))
             else:
                 left_exp = _join_to_slice(None, next_expr)
                 pstate.assign(expr_pstate)
